@@ -40,11 +40,13 @@ import coreprop
 import impl
 import lib
 import dispatchtie
+import leaftie
 import universe
 from lib import coq_bool, coq_list, coq_nat, coq_pair
 
 COQ_TARGETS = ["theories/Props/C01.vo", "theories/Model/CoreTables.vo"]
 COQ_TARGETS = COQ_TARGETS + [t for t in dispatchtie.COQ_TARGETS if t not in COQ_TARGETS]
+COQ_TARGETS = COQ_TARGETS + [t for t in leaftie.COQ_TARGETS if t not in COQ_TARGETS]
 THEOREMS = ["C01_roundtrip", "C01_union_fixpoint", "C01_keys_of_leaf_law", "C01_fuel_unm", "C01_fuel_mar",
             "C01_refuted_full", "C01_refuted_union_foreign_marshaller", "C01_refuted_fixpoint_noncanonical"]
 UTC = D.timezone.utc
@@ -1354,6 +1356,9 @@ def correspond(run: lib.Run):
     bad = coreprop.correspond_core(run, groups, "c01")
     # marshaller and unmarshaller classes chosen for every head pair up (Dispatch_pairs, on the live _HANDLERS tables)
     lib.run_tie(run, dispatchtie, streams=False, core=True, groups=groups, tag="c01")
+    # the leaf laws (RoundLaws ...) are theorems of the scalar model under interpreter-level laws (Props/LeafBridge.v);
+    # every scalar leaf call recorded on this run is re-evaluated on that scalar model
+    lib.run_tie(run, leaftie, groups=groups, tag="c01", streams=False)
     run._c01_bad = bad
     # hypotheses of the theorem on the generated (T, v)
     codes = hypotheses_in_coq(run, groups, records)
